@@ -1,6 +1,7 @@
 import KoordVerif.Common.Proto
 import KoordVerif.Model.C12
 import KoordVerif.Model.C12Static
+import KoordVerif.Model.C12Adjust
 import KoordVerif.Model.C12Env
 import KoordVerif.Model.C12Parse
 import KoordVerif.Model.C12Kind
@@ -28,6 +29,10 @@ Output per `none` line: `w <node> <value>` …, then `st …`.
       applyBESuppressCPUSet; kind: 0 NodeTopo nil, 1 policy annotation unparsable, 2 static, 3 none/other;
       rec = calcBECPUSet result (bitmask), -1 = it failed; dir depths are derived from the `be` parents.
 Output per `sup` line: as for `none`, with a line `err` before `st` for kinds 0 and 1.
+  adj <kind> <expired> <cpus> <rec> <m> <path_0..path_{m-1}>
+      adjustByCPUSet (harness `adjust`): as `sup`, but the OLD set is not an input - it is the content of dir 0 (the
+      besteffort root file, read by the code itself); no `err` line (adjustByCPUSet returns nothing).
+  ext <node> <value>   an outside writer sets the cpuset file of <node>; the ResourceCache is not touched (no output)
 
 Fourth kind of case (harnesses `quota` / `normquota`): every line is one pod handed to the real CFS-quota setters
 (Model/C12Rule.lean; ratio100 = ratio * 100, negative = no ratio; limits in milli-cpu, -1 = no limit entry):
@@ -242,6 +247,21 @@ def runNoneLines (n : Nat) (depth : Nat → Nat) : St Nat → List String → Li
         -- kinds 0/1: applyBESuppressCPUSet returns an error before anything is written
         r.2.map (fun w => s!"w {w.1} {w.2}") ++ (if kind ≤ 1 then ["err"] else []) ++ ["st " ++ showNats vals] ++
           runNoneLines n depth s' rest
+      | _ => ["bad-op"]
+    | "adj" :: ts =>
+      match ints? ts with
+      | some (kind :: expired :: cpus :: rec :: m :: ps) =>
+        if kind < 0 || cpus < 0 || rec < -1 || m < 0 || ps.length ≠ m.toNat || ps.any (fun p => p < 0 || p ≥ n) then ["bad-op"] else
+        let r := adjustByCPUSet kind.toNat (expired ≠ 0) (ps.map Int.toNat) depth
+                   (if rec < 0 then none else some rec.toNat) cpus.toNat 0 s
+        let vals := (List.range n).map r.1.files
+        let s' : St Nat := { files := listFn 0 vals, cache := listFn none ((List.range n).map r.1.cache), skip := [] }
+        r.2.map (fun w => s!"w {w.1} {w.2}") ++ ["st " ++ showNats vals] ++ runNoneLines n depth s' rest
+      | _ => ["bad-op"]
+    | "ext" :: ts =>
+      match ints? ts with
+      | some [i, v] =>
+        if i < 0 || i ≥ n || v < 0 then ["bad-op"] else runNoneLines n depth (extWrite i.toNat v.toNat s) rest
       | _ => ["bad-op"]
     | "none" :: ts =>
       match ints? ts with
